@@ -21,7 +21,7 @@ from pathlib import Path
 from typing import IO, Optional, Type, cast
 
 from jinja2 import Environment, FileSystemLoader, Template
-from jinja2.exceptions import TemplateNotFound
+from jinja2.exceptions import TemplateError, TemplateNotFound
 
 from . import ReuseInfo
 from ._util import _determine_license_suffix_path
@@ -177,6 +177,14 @@ def add_header_to_file(
                 " copyright lines or license expressions. The template is"
                 " probably incorrect. Did not write new header."
             ).format(path=path)
+        )
+        out.write("\n")
+        result = 1
+    except TemplateError as error:
+        out.write(
+            _(
+                "Error: Could not render the template for '{path}': {error}"
+            ).format(path=path, error=error)
         )
         out.write("\n")
         result = 1
